@@ -224,3 +224,9 @@ also("C11", "must-pass-through rule on the upload gate", "Also decides that an u
 also("C12", "ESP rule on the gate's success", "Also decides that the no-clobber gate reports success only after a write or under keep_going.")
 also("C14", "ESP clause on returns after a successful commit", "Also decides that a landed commit is never reported as a failed attempt.")
 also("C18", "exactness clause on constant range checks; structural length-only infallibility", "Also decides that encoders refuse only values that do not fit, and that discarded decoder errors are structurally impossible.")
+
+# rules added after the round-16 seeds
+also("C05", "identity rule on the bank list", "Also decides that the RAM banks reach the unaccepted-memory computation as the caller passed them.")
+also("C09", "effects analysis with channel operations", "Channel sends, receives and selects on a channel shared between calls count as interference.")
+also("C15", "who-may-call rule on file-system mutations in the command layer", "Also decides that the endorse command layer writes no file outside the gated version-control path.")
+also("C16", "loop-state rule on the event collector", "Also decides that what is reported for an event depends on that event alone (no cross-event de-duplication).")
